@@ -283,6 +283,22 @@ func (d *Driver) scheduled() []int64 {
 func (d *Driver) blocksEvent() Event {
 	sch := d.scheduled()
 	n := int64(1 + d.R.Intn(3))
+	if d.R.Intn(25) == 0 {
+		// a long silence: an order with a waiting shard is left alone for as many timeout intervals as the timeout mechanism
+		// can possibly need (ten of waiting and one turn for every node, and some) - afterwards it must be settled
+		for _, sh := range d.St.Shards {
+			if sh.Status != 0 {
+				continue
+			}
+			if o := d.findOrder(sh.Order); o != nil && o.Timeout > 0 && o.Timeout <= 40 {
+				st := int64(0)
+				if d.P.Staking {
+					st = 1
+				}
+				return Event{Kind: "Blocks", N: (int64(len(d.St.Nodes))+14)*o.Timeout + 2, Status: st}
+			}
+		}
+	}
 	if d.P.ShortBlocks {
 		st := int64(0)
 		if d.P.Staking {
